@@ -83,6 +83,10 @@ package json
 //@   ensures[F,C10] @no-comma-needed: result0 == StartObjectGrammar || result0 == StartArrayGrammar ||
 //@        (result0 == StringGrammar && old(p.state[len(p.state)-1]) == ObjectKeyState) ==> !p.needComma
 
+// ---- C15: a new error is reported for the byte the parser stopped at: only whitespace and at most one comma were
+// skipped before a grammar error, and the cursor has not moved past the reported byte
+//@   ensures[F,C15] @err-at-cursor: p.err != old(p.err) ==> result0 == ErrorGrammar && p.err != nil && errOff(p.err) == p.r.pos && old(p.r.pos) <= p.r.pos && p.r.pos <= len(p.r.buf)-1
+
 //@ func Parser.Err
 //@   requires[S] pInv(p)
 
